@@ -37,6 +37,10 @@ type Case struct {
 	ResLo  int    `json:"reslo,omitempty"`  // dhcp4pool ReservedStart
 	ResHi  int    `json:"reshi,omitempty"`  // dhcp4pool ReservedEnd
 	Conc   int    `json:"conc,omitempty"`   // >0: concurrent stress with this many goroutines (ops are split round-robin)
+	Race   bool   `json:"race,omitempty"`   // same-subscriber race rounds (Conc = seed of the callers-per-round sequence)
+	Rounds int    `json:"rounds,omitempty"` // race: number of barrier-released rounds
+	Lease  bool   `json:"lease,omitempty"`  // dist: lease mode (epoch allocator inside)
+	Univ   int    `json:"univ,omitempty"`   // dist: subscribers 0..Univ-1 are observed after every op
 	Ops    []Op   `json:"ops"`
 	Origin string `json:"origin,omitempty"` // generator name
 }
@@ -154,11 +158,14 @@ type pool interface {
 }
 
 type kind struct {
-	name   string
-	header string                         // Coq run function of the stream
+	name    string
+	imports string                        // Coq modules the case files need (default: PoolSpec + PoolCheck)
+	runner  func(c Case) vh.Case          // kinds that do not go through the pool interface
+	header  string                        // Coq run function of the stream
 	cfg    func(c Case) string            // Coq term of the configuration
 	mk     func(c Case) (pool, error)     // build the real object
 	gen    func(r *vh.Rng, th bool) []Case // generated cases
+	onlyProp int                          // stream only emitted for this property (0 = both)
 }
 
 var kinds = map[string]*kind{}
@@ -171,6 +178,9 @@ func run(c Case) vh.Case {
 	if k == nil {
 		panic("unknown kind " + c.Kind)
 	}
+	if k.runner != nil {
+		return k.runner(c)
+	}
 	curBase = bigOf(c.Base)
 	p, err := k.mk(c)
 	if err != nil {
@@ -180,6 +190,9 @@ func run(c Case) vh.Case {
 	tags := map[string]bool{"kind:" + c.Kind: true}
 	if c.Origin != "" {
 		tags["gen:"+c.Origin] = true
+	}
+	if c.Race {
+		return runRace(c, p)
 	}
 	if c.Conc > 0 {
 		return runConc(c, p)
@@ -213,11 +226,15 @@ func safeDo(p pool, o Op) (out string) {
 }
 
 func header(k *kind) string {
+	imp := k.imports
+	if imp == "" {
+		imp = "Model.PoolSpec Model.PoolCheck"
+	}
 	return fmt.Sprintf(`From Coq Require Import NArith List. Import ListNotations.
-From Verif Require Import Model.PoolSpec Model.PoolCheck.
+From Verif Require Import %s.
 Local Open Scope N_scope.
 Definition cases : list %s := [
-`, k.header+"_case")
+`, imp, k.header+"_case")
 }
 
 func footer(k *kind) string {
@@ -246,7 +263,9 @@ func main() {
 			panic(err)
 		}
 		k := kinds[c.Kind]
-		if c.Conc > 0 {
+		if c.Race {
+			k = kinds["race"]
+		} else if c.Conc > 0 {
 			k = kinds["concurrent"]
 		}
 		vh.Emit(cfg, k.name, header(k), footer(k), []vh.Case{run(c)}, nil)
@@ -263,7 +282,16 @@ func main() {
 			fmt.Fprintln(os.Stderr, "corpus case of unknown kind skipped:", f)
 			continue
 		}
-		byKind[c.Kind] = append(byKind[c.Kind], run(c))
+		sk := c.Kind
+		if c.Race {
+			sk = "race"
+		} else if c.Conc > 0 {
+			sk = "concurrent"
+		}
+		if op := kinds[sk].onlyProp; op != 0 && op != propN() {
+			continue
+		}
+		byKind[sk] = append(byKind[sk], run(c))
 	}
 	for _, name := range kindOrder {
 		if cs := byKind[name]; len(cs) > 0 {
@@ -278,6 +306,9 @@ func main() {
 			continue
 		}
 		k := kinds[name]
+		if k.gen == nil || (k.onlyProp != 0 && k.onlyProp != propN()) {
+			continue
+		}
 		var out []vh.Case
 		for _, c := range k.gen(r, cfg.Thorough()) {
 			out = append(out, run(c))
